@@ -225,7 +225,7 @@ func c04(p *Pkg, _ *Pkg, payload json.RawMessage, res *Result) {
 				} else if !dontCare {
 					named := false
 					for _, n := range failing {
-						if strings.Contains(perr.Error(), n) {
+						if ErrNames(perr, n) {
 							named = true
 						}
 					}
